@@ -3,7 +3,7 @@
    the named deviations).  TLC cfg files cannot hold records, so the configurations live here. *)
 EXTENDS Fsm
 
-Cfg(passive, hold, peer) == [passive |-> passive, hold |-> hold, peer |-> peer, maxpfx |-> 1, nbit |-> FALSE, retry |-> 4]
+Cfg(passive, hold, peer) == [passive |-> passive, hold |-> hold, peer |-> peer, maxpfx |-> 1, nbit |-> FALSE, retry |-> 3]
 CfgsPassive == {Cfg(TRUE, 9, "lo"), Cfg(TRUE, 3, "lo")}
 CfgsActiveLo == {Cfg(FALSE, 9, "lo")}
 CfgsActiveHi == {Cfg(FALSE, 9, "hi")}
